@@ -57,3 +57,22 @@ Proof.
   - now replace (Nat.min k (length log)) with k by lia.
   - replace (Nat.min k (length log)) with (length log) by lia. now rewrite !firstn_all2 by lia.
 Qed.
+
+(* the engine layer: a linearizable Range/IterateRange and every read-only transaction, on a leader or a follower, at any
+   lag, is served from a state that includes the a writes acknowledged before it (a <= committed: acknowledged writes are
+   committed) *)
+Theorem engine_linearizable_read log applied committed a is_leader : (a <= committed)%nat ->
+  let k := serve_at (engine_range_path true is_leader) applied committed in
+  (a <= k)%nat /\ replica_state log k = fst (spec_entries (replica_state log a) (firstn (k - a) (skipn a log))).
+Proof.
+  intros H k. assert (Hk : (a <= k)%nat) by (subst k; cbn; lia). split; [exact Hk|]. now apply replica_includes_acknowledged.
+Qed.
+Theorem engine_readonly_txn log applied committed a is_leader : (a <= committed)%nat ->
+  let k := serve_at (engine_txn_path is_leader) applied committed in
+  (a <= k)%nat /\ replica_state log k = fst (spec_entries (replica_state log a) (firstn (k - a) (skipn a log))).
+Proof.
+  intros H k. assert (Hk : (a <= k)%nat) by (subst k; cbn; lia). split; [exact Hk|]. now apply replica_includes_acknowledged.
+Qed.
+(* a serializable read is served from the replica's own prefix *)
+Theorem engine_serializable_read applied committed is_leader : serve_at (engine_range_path false is_leader) applied committed = applied.
+Proof. reflexivity. Qed.
